@@ -483,8 +483,10 @@ def main():
                 violations.append({"kind": "model/implementation disagreement", "config": cname, "case": c,
                                    "impl": a, "model": b, "detail": detail, "found_input": v == "hard"})
         # kernel-anchored known answers (tools/kat.py): outputs the Lean kernel computed from the model at the SoftFloat scalar
+        # (a mismatch means the implementation no longer computes what the kernel computed from the model: the correspondence is broken on
+        #  this input; whether the PROPERTY fails there is for the comparison / oracles to say, so no failing input is claimed here)
         for (c, msg) in kat.check(pid, lines, impl):
-            violations.append({"kind": "oracle: " + msg, "config": cname, "case": c, "found_input": True})
+            violations.append({"kind": "correspondence: " + msg, "config": cname, "case": c, "found_input": False})
         corr["kernel_anchored_known_answers"] = [k["theorem"] for k in kat.KATS.get(pid, []) if k["case"] in lines]
         # property-specific extra oracle on the implementation's own outputs (metamorphic / structural)
         if "oracle" in P:
